@@ -38,7 +38,7 @@ Definition wrap_cfg : cfg :=
 Definition wrap_sched : sched :=
   (* thread 1 does four exchanges first so that the generation is 0 again when thread 0 loads it:
      not needed - the generation only has to return to the value thread 0 saw *)
-  opn 0 CPop 2 ++ opn 0 CPop 2 ++ opn 0 CPop 2 ++
+  opn 0 CPop 3 ++ opn 0 CPop 3 ++ opn 0 CPop 3 ++        (* lockfree bump: load + compare-exchange *)
   opn 0 (CPush 136) 4 ++ opn 0 (CPush 8) 4 ++ opn 0 (CPush 72) 4 ++      (* free list 72 -> 8 -> 136 *)
   opn 0 CPop 2 ++                                                       (* loads (72, g), link 8 *)
   opn 1 CPop 4 ++ opn 1 CPop 4 ++ opn 1 CPop 4 ++ opn 1 (CPush 72) 4 ++  (* four exchanges: g wraps *)
